@@ -26,6 +26,27 @@ pub fn check_mutant(seed_id: &str, m: &Mutant) -> (Option<Viol>, String, bool) {
     }) {
         return (mk("parse_bytes", p), "panic".into(), false);
     }
+    // the same bytes as a slice that does NOT start on a word boundary (a sub-slice of a file image)
+    {
+        let mut container = vec![0xEEu8; bytes.len() + 8];
+        let base = container.as_ptr() as usize;
+        let start = (4 - base % 4) % 4 + 1 + (bytes.len() % 3);
+        container[start..start + bytes.len()].copy_from_slice(bytes);
+        let sub = &container[start..start + bytes.len()];
+        match guarded(|| (crate::util::parse_collect(sub), crate::util::parse_collect(bytes))) {
+            Err(p) => return (mk("parse_bytes on a misaligned slice", p), "panic".into(), false),
+            Ok(((ra, ca), (rb, cb))) => {
+                let same = ra.as_ref().map_err(|e| crate::util::state_name(e)) == rb.as_ref().map_err(|e| crate::util::state_name(e)) && ca.insts.len() == cb.insts.len() && ca.insts.iter().zip(cb.insts.iter()).all(|(x, y)| crate::model::from_dr(x) == crate::model::from_dr(y));
+                if !same {
+                    return (
+                        Some(viol(format!("C04:misaligned-differs:{}", seed_id.split(':').next().unwrap_or("")), format!("seed {} corruption {}: parsing the same bytes from a slice that starts off a word boundary gives a different result", seed_id, m.what), json!({"kind": "bytes", "bytes": hex(bytes), "misaligned": true}))),
+                        "misaligned-differs".into(),
+                        false,
+                    );
+                }
+            }
+        }
+    }
     // word granularity
     let words: Vec<u32> = bytes.chunks_exact(4).map(|c| u32::from_le_bytes([c[0], c[1], c[2], c[3]])).collect();
     if let Err(p) = guarded(|| {
